@@ -109,7 +109,11 @@ def run(F, chk):
                     return False
                 return any(c.startswith(flagsrc) for c in b.slice_back([l])["callees"])
         else:
-            flags = set(b.named_local("invalid_trailers"))
+            # the `invalid field seen` flag, identified by what sets it: the local the decode closure sets to true on
+            # the Some edge of classify_invalid_h2_header (no dependence on its name)
+            flags = lib.flags_set_after_call(F, b, "::classify_invalid_h2_header")
+            if not rc.require(flags, "%s: no flag set after classify_invalid_h2_header found" % b.path):
+                continue
             def pred(sb, truth, atom):
                 if truth is not False:
                     return False
